@@ -673,6 +673,7 @@ OPS = {"new": _op_new, "query": _op_query, "requery": _op_requery, "set_points":
 
 class GridHistoryEngine:
     NAME = "grid-history"
+    RUN_TIMEOUT_S = 600  # generous: a run normally takes well under a second, but the machine may be heavily loaded
     LEVEL = "exploration"
     RULE = (
         "one run = seeded sequence of constructions, local-grid queries, points/weights reassignments, rejected calls and "
